@@ -476,6 +476,14 @@ func genReasmRealCase(rng *rand.Rand) RCase {
 	n := 3 + rng.Intn(10)
 	id := 0
 	pos := 0
+	if rng.Intn(4) == 0 && c.TimeoutNs > 0 && c.TimeoutNs < int64(time.Hour) && c.Max >= 2 {
+		// an older event with the HIGHER number expires while a younger, lower-numbered one is the head: time alone
+		// never lets it overtake (it leaves when it is the oldest buffered event, not before)
+		c.Ops = append(c.Ops, ROp{K: "push", ID: 800, Seq: c.Base + 301, Typ: tSYSCALL}, ROp{K: "sleep", Ms: toMs * 6 / 10},
+			ROp{K: "push", ID: 801, Seq: c.Base + 300, Typ: tSYSCALL}, ROp{K: "sleep", Ms: toMs * 6 / 10}, ROp{K: "maintain"},
+			ROp{K: "sleep", Ms: toMs * 6 / 10}, ROp{K: []string{"maintain", "push"}[rng.Intn(2)], ID: 802, Seq: c.Base + 300, Typ: tPATH}, ROp{K: "close"})
+		return c
+	}
 	if rng.Intn(2) == 0 && c.TimeoutNs > 0 && c.TimeoutNs < int64(time.Hour) {
 		// a stale multi-record event: later records must not postpone its deadline
 		typ := []uint16{tSYSCALL, tPATH, tCWD}
@@ -1066,6 +1074,26 @@ func reasmFamily(ctx *Ctx) error {
 			idx++
 		}
 	}
+	if ctx.Prop != "C19" {
+		for _, c := range reasmNamedTypeCases() {
+			res.Hist("named type")
+			report(runReasmCase(ctx, m, c, idx), c)
+			idx++
+		}
+	}
+	if ctx.Prop == "C19" {
+		// a call made from inside the callbacks of Close's own flush (still one goroutine): it finds the Reassembler closed
+		for _, nest := range [][]ROp{{{K: "close"}}, {{K: "maintain"}}, {{K: "close"}, {K: "maintain"}, {K: "close"}}} {
+			for _, at := range []int{0, 1} {
+				c := RCase{Max: 4, TimeoutNs: int64(time.Hour), InWindow: true, Base: 0, Ops: []ROp{
+					{K: "push", ID: 1, Seq: 1, Typ: tSYSCALL}, {K: "push", ID: 2, Seq: 2, Typ: tSYSCALL}, {K: "push", ID: 3, Seq: 3, Typ: tPATH},
+					{K: "close", Nest: nest, At: at}, {K: "close"}}}
+				res.Hist("re-entrant close")
+				report(runReasmCase(ctx, m, c, idx), c)
+				idx++
+			}
+		}
+	}
 	if ctx.Prop == "C01" {
 		for _, c := range reentrantBatchCases() {
 			res.Hist("re-entrant batch")
@@ -1083,7 +1111,41 @@ func reasmFamily(ctx *Ctx) error {
 		idx++
 	}
 
+	if ctx.Prop == "C02" || ctx.Prop == "C19" {
+		// directed: an older event with the higher number expires behind a younger, lower-numbered head
+		for _, max := range []int{2, 5, 8} {
+			for _, toMs := range []int{40, 60} {
+				c := RCase{Real: true, InWindow: true, Base: 1000, Max: max, TimeoutNs: int64(toMs) * int64(time.Millisecond)}
+				c.Ops = append(c.Ops, ROp{K: "push", ID: 800, Seq: 1301, Typ: tSYSCALL}, ROp{K: "sleep", Ms: toMs * 6 / 10},
+					ROp{K: "push", ID: 801, Seq: 1300, Typ: tSYSCALL}, ROp{K: "sleep", Ms: toMs * 6 / 10}, ROp{K: "maintain"},
+					ROp{K: "sleep", Ms: toMs * 6 / 10}, ROp{K: "maintain"}, ROp{K: "close"})
+				res.Hist("expired behind a young head")
+				report(runReasmCase(ctx, m, c, idx), c)
+				idx++
+			}
+		}
+	}
+	if ctx.Prop == "C02" {
+		// order under real elapsed time (a few histories with real sleeps; the rest of C02 runs with +-1h timeouts)
+		n := ctx.N(16, 160)
+		for i := 0; i < n && res.NumViolations() < 5; i++ {
+			c := genReasmRealCase(ctx.Rng)
+			report(runReasmCase(ctx, m, c, idx), c)
+			idx++
+		}
+	}
 	if ctx.Prop == "C19" {
+		{
+			// more than a thousand events stale at the same moment: the first Maintain after the timeout delivers them all
+			c := RCase{Real: true, InWindow: true, Base: 1000, Max: 1500, TimeoutNs: int64(40 * time.Millisecond)}
+			for i := 0; i < 1100; i++ {
+				c.Ops = append(c.Ops, ROp{K: "push", ID: i + 1, Seq: 1000 + uint32(i), Typ: tSYSCALL})
+			}
+			c.Ops = append(c.Ops, ROp{K: "sleep", Ms: 400}, ROp{K: "maintain"}, ROp{K: "close"})
+			res.Hist("large stale backlog")
+			report(runReasmCase(ctx, m, c, idx), c)
+			idx++
+		}
 		n := ctx.N(40, 400)
 		for i := 0; i < n && res.NumViolations() < 5; i++ {
 			c := genReasmRealCase(ctx.Rng)
